@@ -7,8 +7,17 @@
 using namespace bpp;
 using namespace std;
 
-void FivePointsNumericalDerivative::updateDerivatives(const ParameterList& parameters)
+void FivePointsNumericalDerivative::updateDerivatives(const ParameterList& updatedParameters)
 {
+  // The derivatives of all selected variables depend on the new point, not only those of the
+  // parameters which were updated: complete the list with the current values of the other ones.
+  ParameterList parameters(updatedParameters);
+  for (const auto& v : variables_)
+  {
+    if (!parameters.hasParameter(v) && function_->hasParameter(v))
+      parameters.addParameter(function_->parameter(v));
+  }
+
   if (computeD1_ && variables_.size() > 0)
   {
     if (function1_)
